@@ -927,3 +927,20 @@ Proof.
   intros hrp p. unfold probe_result, evm_dispatch. rewrite wire_lookup, L, D by exact U.
   destruct (std_precompile a); auto.
 Qed.
+
+(* calls made by contracts (CALL / STATICCALL from a forwarder) see the same registry *)
+Lemma probe_custom_not_fail hrp m p : through_forwarder (probe_custom hrp m p) = probe_custom hrp m p.
+Proof. unfold probe_custom. destruct (m_typed m); destruct p; reflexivity. Qed.
+
+Lemma probe_via_classes caddr hrp md v s a p : reachable caddr s -> std_precompile a = false ->
+  match lookup (metas s) a with
+  | None => probe_via hrp md v s a p = POkEmpty
+  | Some m => probe_via hrp md v s a p =
+              if m_disabled m then match v with Direct => PFail | _ => PRevert end else probe_custom hrp m p
+  end.
+Proof.
+  intros R S. pose proof (probe_classes caddr hrp md s a p R S) as H. unfold probe_via.
+  destruct (lookup (metas s) a) as [m|]; rewrite H.
+  - destruct (m_disabled m); destruct v; try reflexivity; apply probe_custom_not_fail.
+  - destruct v; reflexivity.
+Qed.
